@@ -108,9 +108,25 @@ def g_shape(rng, m):
         if rng.random() < 0.3:
             m["quad"] = _r(10 ** rng.uniform(-6, -3))
         return m
-    if m["kind"] in ("exc", "rec", "tcx", "bcx") and rng.random() < 0.3:
-        m["shape"] = "zeeman"
-        m["pol"] = ["no", "pi", "sigma"][int(rng.integers(3))]
+    if m["kind"] in ("exc", "rec", "tcx", "bcx"):
+        u = rng.random()
+        if u < 0.25:
+            m["shape"] = "zeeman"
+            m["pol"] = ["no", "pi", "sigma"][int(rng.integers(3))]
+        elif u < 0.33:
+            m["shape"] = "stark"
+            m["pol"] = ["no", "pi", "sigma"][int(rng.integers(3))]
+            m["stark"] = [_r(10 ** rng.uniform(-17, -15.5)), _r(rng.uniform(0.6, 0.8)), _r(rng.uniform(0.01, 0.05))]
+        elif u < 0.45:
+            n = int(rng.integers(2, 5))
+            w = np.sort(rng.uniform(430, 670, n))
+            ratios = rng.integers(1, 9, n).astype(float)
+            ratios = ratios / ratios.sum()
+            # the constructor demands an exact unit sum
+            ratios[-1] = 1.0 - ratios[:-1].sum()
+            if ratios.sum() == 1.0 and (ratios > 0).all():
+                m["shape"] = "multiplet"
+                m["multiplet"] = [[float(x) for x in w], [float(x) for x in ratios]]
     return m
 
 
